@@ -469,7 +469,7 @@ func genPF(r *rand.Rand) cq.Case {
 		if r.Intn(3) == 0 {
 			seq = []int{0, 1, 2, 3, 255, 256, 257, 258, 65535}[r.Intn(9)]
 		}
-		h, p, isNil := genPacket(r, 1000, seq, bk, true)
+		h, p, isNil := genPacket(r, 1000, seq, bk, r.Intn(2) == 0)
 		cl := pfCall{H: h, P: p, Nil: isNil}
 		switch r.Intn(6) {
 		case 0:
@@ -769,7 +769,10 @@ func genResp(r *rand.Rand) ([]respOp, int, bool, int, []string) {
 		streams = append(streams, bind(info))
 	}
 	n := 8 + r.Intn(45)
-	long := 0
+	long := 1
+	if r.Intn(30) == 0 {
+		long = 0
+	}
 	for i := 0; i < n; i++ {
 		st := streams[r.Intn(len(streams))]
 		switch k := r.Intn(100); {
@@ -781,21 +784,18 @@ func genResp(r *rand.Rand) ([]respOp, int, bool, int, []string) {
 				ssrc += 500
 				bk["write-other-ssrc"] = true
 			}
-			h, p, isNil := genPacket(r, ssrc, seq, bk, long < 2)
+			h, p, isNil := genPacket(r, ssrc, seq, bk, long < 1)
 			if len(p) > 100 {
 				long++
 			}
 			ops = append(ops, respOp{K: "write", Hid: st.hid, H: h, P: p, Nil: isNil})
-		case k < 92:
+		case k < 93:
 			media := st.info.SSRC
 			if r.Intn(12) == 0 {
 				media = []int64{0, 999, 2000, 1000 + int64(ns)}[r.Intn(4)]
 				bk["nack-unknown-ssrc"] = true
 			}
 			np := 1 + r.Intn(3)
-			if r.Intn(20) == 0 {
-				np = 0
-			}
 			pairs := make([][2]int, np)
 			for j := range pairs {
 				blp := 0
@@ -813,12 +813,12 @@ func genResp(r *rand.Rand) ([]respOp, int, bool, int, []string) {
 				pairs[j] = [2]int{st.walk.request(r), blp}
 			}
 			ops = append(ops, respOp{K: "nack", SSRC: media, Pairs: pairs, Extra: r.Intn(6) == 0})
-		case k < 95:
+		case k < 96:
 			ops = append(ops, respOp{K: "unbind", Info: st.info})
 			bk["unbind"] = true
 			st.walk.any = false
 			st.live = false
-		case k < 98: // bind the same SSRC again (new buffer, new handle); keep or drop the old handle
+		case k < 99: // bind the same SSRC again (new buffer, new handle); keep or drop the old handle
 			nst := bind(st.info)
 			bk["rebind"] = true
 			if r.Intn(3) == 0 {
